@@ -317,3 +317,36 @@ def _unsquared_definition(fn, tol: ast.expr) -> Optional[ast.expr]:
                 return d
         return None
     return tol
+
+
+def no_rounding_rule(repo: Repo, prop: str, rule_id: str, module_prefixes, floor: int = 2):
+    """Coordinates, sizes and ratios are carried in full floating-point precision up to the formatted output. Rounding to a fixed
+    number of DECIMALS (round(x, n), np.round, np.around) on the way is an absolute quantisation: harmless for values of order
+    one, destructive for small ones (an expansion ratio of 6e-8 rounded to 9 decimals has one significant digit; a vertex at
+    1/3 rounded to 8 decimals is no longer where its neighbours' copies of it are)."""
+    from .report import RuleRun
+
+    r = RuleRun(prop, rule_id, floor=floor, what="no value is rounded to a fixed number of decimals (round(x, n) / np.round / np.around) before it is stored or compared: precision is reduced only when the dictionary is formatted")
+    for mod in sorted(repo.modules.values(), key=lambda m: m.name):
+        short = mod.name[len("classy_blocks.") :] if mod.name.startswith("classy_blocks.") else mod.name
+        if not any(short.startswith(p) for p in module_prefixes):
+            continue
+        bad = []
+        for c in ast.walk(mod.tree):
+            if isinstance(c, ast.Call):
+                nm = attr_chain(c.func) or ""
+                last = nm.split(".")[-1]
+                if (nm == "round" and (len(c.args) >= 2 or any(k.arg == "ndigits" for k in c.keywords))) or (last in ("round", "around", "round_") and nm.split(".")[0] in ("np", "numpy")):
+                    bad.append(c)
+        fns = [f for f in repo.all_functions() if f.module is mod]
+        anchor = fns[0] if fns else None
+        if anchor is None:
+            continue
+        if bad:
+            for i, c in enumerate(bad):
+                owner = next((f for f in fns if any(x is c for x in ast.walk(f.node))), anchor)
+                r.bad(owner, f"{owner.qualname}: '{ast.unparse(c)[:70]}' rounds to a fixed number of decimals: an absolute quantisation of a value whose magnitude is not bounded below (ratios down to 1e-8, coordinates in any unit) - "
+                      "small values lose all their digits, and positions that were equal are equal no more once only one of them went through the rounding", c, key=f"round#{i}")
+        else:
+            r.ok(anchor, f"module {short}: no rounding to decimals", key=f"module:{short}")
+    return r
